@@ -184,8 +184,9 @@ class Element(UnicodeMixin):
 
         """
         if self.parent is not None:
-            if self in self.parent.children:
-                self.parent.children.remove(self)
+            index = self.parent.__index_of(self)
+            if index is not None:
+                del self.parent.children[index]
             self.parent = None
         return self
 
@@ -401,9 +402,9 @@ class Element(UnicodeMixin):
         @type content: L{Element} or [L{Element},...]
 
         """
-        if child not in self.children:
+        index = self.__index_of(child)
+        if index is None:
             raise Exception("child not-found")
-        index = self.children.index(child)
         self.remove(child)
         if not isinstance(content, (list, tuple)):
             content = (content,)
@@ -951,7 +952,23 @@ class Element(UnicodeMixin):
             if c.isempty(False):
                 pruned.append(c)
         for p in pruned:
-            self.children.remove(p)
+            del self.children[self.__index_of(p)]
+
+    def __index_of(self, child):
+        """
+        Get the position of the very node I{child} (compared by identity, not
+        by name) in this element's child list.
+
+        @param child: A child element.
+        @type child: L{Element}
+        @return: The index or None when I{child} is not a child of this node.
+        @rtype: int|None
+
+        """
+        for index, c in enumerate(self.children):
+            if c is child:
+                return index
+        return None
 
     def __childrenAtPath(self, parts):
         result = []
